@@ -39,6 +39,7 @@ import (
 	"math/rand"
 	"os"
 	"runtime/debug"
+	"runtime/pprof"
 	"sort"
 	"strings"
 	"sync"
@@ -55,6 +56,12 @@ func init() {
 }
 
 var fzSeq uint64
+
+// InitializeTimeout of the handshake-mutation cases. Long enough that an exchange that is still progressing never
+// crosses it on a loaded machine (a worker that outlives its time-out is the late-answer situation Q3 of C12, and in
+// one process it could go on using a descriptor number that has been reused); short enough to wait out the
+// "waits for more bytes" class.
+const fzHsTO = time.Second
 
 // ---------------------------------------------------------------------------------------------
 // victims: a library session of the given role whose peer is a raw peer that completed the handshake
@@ -74,7 +81,9 @@ type fzVictim struct {
 func fzConf(prefix string, memfd bool, to time.Duration) *Config {
 	conf := hsConf(prefix, memfd, to)
 	conf.QueueCap = 256
-	conf.BufferSliceSizes = []*SizePercentPair{{Size: 256, Percent: 50}, {Size: 4096, Percent: 50}}
+	// one class of few large slots: creating the mapping touches one page per slot header (page faults dominate the cost
+	// of a victim on this machine: 10+ ms for 2000 small slots), and C13 is about control bytes, not about the allocator
+	conf.BufferSliceSizes = []*SizePercentPair{{Size: 32*1024 - bufferHeaderSize, Percent: 100}}
 	return conf
 }
 
@@ -152,25 +161,7 @@ func fzNewVictim(role string, memfd bool) (*fzVictim, error) {
 	return v, nil
 }
 
-// startDiscard: the raw peer reads and drops whatever the victim writes on the socket (polling events, close events),
-// so that the victim's writers never block on a full socket buffer. The raw peer still never *sends* by itself.
-func (v *fzVictim) startDiscard() {
-	go func() {
-		buf := make([]byte, 4096)
-		for {
-			if err := v.raw.waitReadable(time.Hour); err != nil {
-				return
-			}
-			n, err := unix.Read(v.raw.fd, buf)
-			if err != nil && err != unix.EINTR && err != unix.EAGAIN {
-				return
-			}
-			if n == 0 && err == nil {
-				return
-			}
-		}
-	}()
-}
+func (v *fzVictim) startDiscard() { v.raw.startDiscard() }
 
 // retire ends the victim: buffers the victim never consumed are taken back, the raw peer closes, the session is closed.
 func (v *fzVictim) retire(wait bool) {
@@ -388,6 +379,17 @@ var fzMutations = []string{
 	"close_short", "hotrestart_short", "random_bytes", "trailing_garbage", "none",
 }
 
+// A victim costs 25-35 ms on this (loaded) machine - a handshake is a dozen cross-thread wake-ups - and every input that
+// ends its session costs one. The direct layer therefore runs the mutations that normally end the session ("hard") in a
+// fixed, smaller number and the ones that normally leave it serving or waiting ("soft") in bulk. The split is only a
+// budget: whatever the session does with an input decides what happens next, not this table.
+var (
+	fzHardMutations = []string{"len_below_fixed", "len_zero", "bad_magic", "version_0", "type_sweep", "handshake_phase_event",
+		"other_direction_hotrestart_ack", "fallback_short", "random_bytes", "trailing_garbage"}
+	fzSoftMutations = []string{"truncate", "len_above_data", "len_max", "version_1", "version_255", "close_short",
+		"hotrestart_short", "none"}
+)
+
 // fzMutate returns the input bytes and the exact mutation name (type_sweep carries the type).
 func fzMutate(rng *rand.Rand, evs [][]byte, kind string, version uint8, sweep int) ([]byte, string) {
 	if len(evs) == 0 {
@@ -465,6 +467,22 @@ func fzMutate(rng *rand.Rand, evs [][]byte, kind string, version uint8, sweep in
 	}
 	evs[k] = last
 	return fzJoin(evs), name
+}
+
+// fzLogHex: the input as it goes into the child's log (every input is a pure function of seed, batch and index, which
+// the line also carries; long inputs are cut to keep the log of a thorough run small).
+func fzLogHex(buf []byte) string {
+	if len(buf) <= 320 {
+		return hex.EncodeToString(buf)
+	}
+	return fmt.Sprintf("%s...(%d bytes)", hex.EncodeToString(buf[:320]), len(buf))
+}
+
+func fzLogCuts(cuts []int) string {
+	if len(cuts) > 24 {
+		return fmt.Sprintf("%v...(%d chunks)", cuts[:24], len(cuts))
+	}
+	return fmt.Sprint(cuts)
 }
 
 func fzHash(parts ...string) uint64 {
@@ -592,11 +610,14 @@ type fzArgs struct {
 	Seed   int64  `json:"seed"`
 	Batch  int    `json:"batch"`
 	D1     int    `json:"d1"`
+	D1Hard int    `json:"d1hard"`
 	D2     int    `json:"d2"`
 	S1     int    `json:"s1"`
 	S2     int    `json:"s2"`
 	S3     bool   `json:"s3"`
 	S3Full bool   `json:"s3full"`
+	Shard  int    `json:"shard"`
+	Shards int    `json:"shards"`
 }
 
 type fzRun struct {
@@ -627,6 +648,11 @@ func (r *fzRun) count(name string, n int64) {
 }
 
 func (r *fzRun) input(kind string, key uint64, nontrivial bool) {
+	if strings.HasPrefix(kind, "type_") {
+		kind = "type_sweep(0..255)"
+	} else if strings.HasPrefix(kind, "hs_type_") {
+		kind = "hs_type_sweep(0..255)"
+	}
 	r.mu.Lock()
 	r.sum.Inputs++
 	r.sum.ByKind[kind]++
@@ -676,6 +702,12 @@ func fzChildDirect(args []string) {
 		return
 	}
 	fenceInit()
+	if pf := os.Getenv("VERIF_FZ_PROF"); pf != "" { // debugging aid: CPU profile of the child
+		if f, err := os.Create(pf); err == nil {
+			_ = pprof.StartCPUProfile(f)
+			defer pprof.StopCPUProfile()
+		}
+	}
 	r := newFzRun(a)
 	fzDirectD1(r)
 	fzDirectD2(r)
@@ -688,6 +720,7 @@ func fzDirectD1(r *fzRun) {
 	var base uint32 = 1
 	newVictim := func() bool {
 		var err error
+		t0 := time.Now()
 		v, err = fzNewVictim(a.Role, a.Memfd)
 		if err != nil {
 			r.mu.Lock()
@@ -698,17 +731,33 @@ func fzDirectD1(r *fzRun) {
 		v.startDiscard()
 		base = 1
 		r.count("victims_created", 1)
+		r.count("victim_create_us", time.Since(t0).Microseconds())
 		return true
 	}
 	if !newVictim() {
 		return
 	}
 	retired := 0
-	for i := 0; i < a.D1; i++ {
+	total := a.D1 + a.D1Hard
+	every := 0
+	if a.D1Hard > 0 {
+		every = total / a.D1Hard
+	}
+	nHard, nSoft := 0, 0
+	for i := 0; i < total; i++ {
 		rng := caseRand(a.Seed, a.Batch*10000000+i)
 		version := v.sess.communicationVersion
 		t := fzGenTmpl(rng, 5, 300, true)
-		kind := fzMutations[i%len(fzMutations)]
+		var kind string
+		sweep := 0
+		if every > 0 && i%every == 0 && nHard < a.D1Hard {
+			kind = fzHardMutations[nHard%len(fzHardMutations)]
+			sweep = (nHard/len(fzHardMutations) + a.Batch*37) % 256
+			nHard++
+		} else {
+			kind = fzSoftMutations[nSoft%len(fzSoftMutations)]
+			nSoft++
+		}
 		ids, err := fzPrepareIDs(v, &base)
 		if err != nil {
 			r.count("d1_prepare_failed", 1)
@@ -719,11 +768,11 @@ func fzDirectD1(r *fzRun) {
 			continue
 		}
 		evs := t.instantiate(ids, version)
-		buf, name := fzMutate(rng, evs, kind, version, (i/len(fzMutations))%256)
+		buf, name := fzMutate(rng, evs, kind, version, sweep)
 		if len(t.Shm) > 0 {
 			t.queueShm(v, ids)
 		}
-		childLog("D1 %d %s %s %s", i, a.Role, name, hex.EncodeToString(buf))
+		childLog("D1 %d %s %s %s", i, a.Role, name, fzLogHex(buf))
 		consumed, herr, p, stack := fzCall(v.sess, buf)
 		key := fzHash("D1", a.Role, t.typeSeq(), name)
 		r.input(name, key, len(buf) >= headerSize)
@@ -756,7 +805,9 @@ func fzDirectD1(r *fzRun) {
 			r.count("d1_fully_consumed", 1)
 		}
 		if dead {
+			t0 := time.Now()
 			v.retire(false)
+			r.count("victim_retire_us", time.Since(t0).Microseconds())
 			retired++
 			if retired%64 == 0 {
 				fence() // let the loop run the teardown lambdas
@@ -852,7 +903,7 @@ func fzDirectD2(r *fzRun) {
 		}
 		sort.Ints(cuts)
 		cuts = append(cuts, len(buf))
-		childLog("D2 %d %s cuts=%v %s", i, a.Role, cuts, hex.EncodeToString(buf))
+		childLog("D2 %d %s cuts=%v %s", i, a.Role, cuts, fzLogHex(buf))
 		r.input("valid_sequence_split", fzHash("D2", a.Role, t.typeSeq()), len(buf) >= headerSize)
 		w := map[string]interface{}{"layer": "direct D2", "role": a.Role, "memfd": a.Memfd, "idx": i, "batch": a.Batch, "seed": a.Seed,
 			"template": t, "input_hex": hex.EncodeToString(buf), "cuts": cuts}
@@ -1141,7 +1192,7 @@ func fzSockS1(r *fzRun, echo *fzEcho) {
 				broken = true
 				break
 			}
-			childLog("S1 %d %s %s cuts=%v %s", i, a.Role, mode, cuts, hex.EncodeToString(buf))
+			childLog("S1 %d %s %s cuts=%v %s", i, a.Role, mode, fzLogCuts(cuts), fzLogHex(buf))
 			r.input("valid_sequence_"+mode, fzHash("S1", a.Role, t.typeSeq(), mode), true)
 			if err := fzDeliver(v, buf, cuts); err != nil {
 				r.mu.Lock()
@@ -1216,7 +1267,7 @@ func fzSockS2(r *fzRun, echo *fzEcho) {
 			mode = "prng"
 		}
 		cuts := fzCuts(rng, len(buf), mode)
-		childLog("S2 %d %s %s %s cuts=%v %s", i, a.Role, name, mode, cuts, hex.EncodeToString(buf))
+		childLog("S2 %d %s %s %s cuts=%v %s", i, a.Role, name, mode, fzLogCuts(cuts), fzLogHex(buf))
 		r.input(name, fzHash("S2", a.Role, t.typeSeq(), name), len(buf) >= headerSize)
 		w := map[string]interface{}{"layer": "socket S2", "role": a.Role, "memfd": a.Memfd, "idx": i, "batch": a.Batch, "seed": a.Seed,
 			"mutation": name, "mode": mode, "cuts": cuts, "input_hex": hex.EncodeToString(buf), "template": t}
@@ -1432,7 +1483,7 @@ func fzRunHsCase(r *fzRun, cs fzHsCase, idx int) {
 	rng := caseRand(r.a.Seed, 9000000+idx)
 	libIsClient := cs.Judged == "client"
 	prefix := fmt.Sprintf("%sfzh%d", shmPrefix(), atomic.AddUint64(&fzSeq, 1))
-	conf := fzConf(prefix, cs.Memfd, 150*time.Millisecond)
+	conf := fzConf(prefix, cs.Memfd, fzHsTO)
 	defer func() {
 		for _, f := range []string{prefix + "_queue", prefix + "_buffer"} {
 			_ = os.Remove(f)
@@ -1532,7 +1583,7 @@ func fzRunHsCase(r *fzRun, cs fzHsCase, idx int) {
 			r.sum.Inconcl = append(r.sum.Inconcl, fmt.Sprintf("S3-%d newSession did not return within 30 s on a late machine", idx))
 			r.mu.Unlock()
 		} else {
-			r.viol(fmt.Sprintf("S3-%s-%d-%s", cs.Script, cs.Step, mutName), "newSession did not return within 30 s (InitializeTimeout 150 ms) after a mutated handshake message", w)
+			r.viol(fmt.Sprintf("S3-%s-%d-%s", cs.Script, cs.Step, mutName), "newSession did not return within 30 s (InitializeTimeout 1 s) after a mutated handshake message", w)
 		}
 		raw.close()
 		hsAwait(resCh, 5*time.Second)
@@ -1563,9 +1614,14 @@ func fzSockS3(r *fzRun, echo *fzEcho) {
 			}
 		}()
 	}
+	n := 0
 	for i := range list {
+		if r.a.Shards > 1 && i%r.a.Shards != r.a.Shard {
+			continue
+		}
+		n++
 		jobs <- i
-		if i%200 == 199 {
+		if n%200 == 199 {
 			if !r.echoCheck(echo, fmt.Sprintf("S3-upto-%d", i), map[string]interface{}{"after_handshake_case": list[i]}) {
 				break
 			}
@@ -1575,7 +1631,7 @@ func fzSockS3(r *fzRun, echo *fzEcho) {
 	wg.Wait()
 	fence()
 	r.echoCheck(echo, "S3-end", map[string]interface{}{"after": "all handshake mutations"})
-	r.count("s3_cases", int64(len(list)))
+	r.count("s3_cases", int64(n))
 }
 
 // ---------------------------------------------------------------------------------------------
@@ -1608,11 +1664,15 @@ func fzRunChild(c *checkCtx, role string, a fzArgs, agg *fzAgg) {
 	}
 	name := fmt.Sprintf("%s-%s-memfd%v-batch%d", a.Layer, a.Role, a.Memfd, a.Batch)
 	var sum fzSummary
-	_, ok := cp.recv(15*time.Minute, &sum)
+	_, ok := cp.recv(time.Duration(c.pick(5, 40))*time.Minute, &sum)
 	cp.stdin.Close()
 	ex := cp.wait(20 * time.Second)
 	if !ok || !sum.Finished {
-		last := fzLastLogLines(cp.logPath, 4)
+		nLast := 4
+		if a.S3 {
+			nLast = 14 // twelve handshake cases are in flight at any time
+		}
+		last := fzLastLogLines(cp.logPath, nLast)
 		w := map[string]interface{}{"child": name, "args": a, "exit_code": ex.Code, "signal": ex.Signal, "timed_out": ex.TimedOut,
 			"last_logged_inputs": last, "stderr": truncate(ex.Stderr, 6000)}
 		if ex.TimedOut && !strings.Contains(ex.Stderr, "panic") && !strings.Contains(ex.Stderr, "fatal error") {
@@ -1633,7 +1693,12 @@ func fzRunChild(c *checkCtx, role string, a fzArgs, agg *fzAgg) {
 					break
 				}
 			}
-			c.violation(name, w, "the process hosting the sessions died (%s) %s; last logged input: %s", reason, first, truncate(lastOne, 300))
+			if a.S3 {
+				c.violation(name, w, "the process hosting the sessions died (%s) %s; twelve handshake inputs were in flight, the last %d logged ones are in the witness; the very last: %s",
+					reason, first, len(last), truncate(lastOne, 300))
+			} else {
+				c.violation(name, w, "the process hosting the sessions died (%s) %s; last logged input: %s", reason, first, truncate(lastOne, 300))
+			}
 		}
 		return
 	}
@@ -1685,20 +1750,23 @@ func checkFuzz(c *checkCtx) {
 	}
 	var jobs []job
 	batch := 0
-	d1, d2 := c.pick(9000, 180000), c.pick(6000, 120000)
-	s1, s2 := c.pick(40, 800), c.pick(90, 1800)
+	d1, d1hard, d2 := c.pick(5000, 100000), c.pick(150, 3000), c.pick(8000, 160000)
+	s1, s2 := c.pick(150, 3000), c.pick(90, 1800)
 	for _, role := range []string{"server", "client"} {
 		for _, memfd := range []bool{true, false} {
 			batch++
-			jobs = append(jobs, job{"fzdirect", fzArgs{Layer: "direct", Role: role, Memfd: memfd, Seed: c.seed, Batch: batch, D1: d1, D2: d2}})
+			jobs = append(jobs, job{"fzdirect", fzArgs{Layer: "direct", Role: role, Memfd: memfd, Seed: c.seed, Batch: batch, D1: d1, D1Hard: d1hard, D2: d2}})
 			batch++
-			jobs = append(jobs, job{"fzdirect", fzArgs{Layer: "direct", Role: role, Memfd: memfd, Seed: c.seed, Batch: batch, D1: d1, D2: d2}})
+			jobs = append(jobs, job{"fzdirect", fzArgs{Layer: "direct", Role: role, Memfd: memfd, Seed: c.seed, Batch: batch, D1: d1, D1Hard: d1hard, D2: d2}})
 			batch++
 			jobs = append(jobs, job{"fzsock", fzArgs{Layer: "socket", Role: role, Memfd: memfd, Seed: c.seed, Batch: batch, S1: s1, S2: s2}})
 		}
 	}
-	batch++
-	jobs = append(jobs, job{"fzsock", fzArgs{Layer: "socket-handshake", Role: "server", Memfd: true, Seed: c.seed, Batch: batch, S3: true, S3Full: c.thorough()}})
+	for shard := 0; shard < 3; shard++ {
+		batch++
+		jobs = append(jobs, job{"fzsock", fzArgs{Layer: "socket-handshake", Role: "server", Memfd: true, Seed: c.seed, Batch: batch, S3: true,
+			S3Full: c.thorough(), Shard: shard, Shards: 3}})
+	}
 	width := 6
 	if c.jobs < width {
 		width = c.jobs
